@@ -132,6 +132,9 @@ namespace options
 
     void multi_option::prepare()
     {
+        // forget the result of an earlier parse
+        value_.clear();
+        dirty_ = false;
     }
 
     void multi_option::check()
